@@ -167,6 +167,24 @@ PROPS["C13"] = dict(
     assumptions=["publisher frames carry id+CRC so splicing is detected even when lengths happen to line up"],
 )
 
+PROPS["C11"] = dict(
+    bin="race", level="exploration", shards={"quick": 16, "thorough": 16},
+    timeout={"quick": 1500, "thorough": 3400},
+    rule=("real service with auth on, three administrator-published source streams; per history 5-12 steps of user create/narrow/widen/delete "
+          "(11 right strings around the paths: exact, '+', trailing '*', other case, unrelated), login, token refresh, token ageing (3 h through a "
+          "verif accessor), invalid/absent tokens, wrong passwords; after every step 3 probes of the (user x path x entry point) matrix: RTSP "
+          "Digest play and publish, ws-rtsp play, ANNOUNCE/RECORD inside a ws-rtsp session, WSP control, HTTP-FLV, WS-FLV, HLS playlist and "
+          "segment, /api/v1 GET users / POST routes / DELETE stream; plus an attacker that derives the process counter from a disclosed "
+          "Session id and tries 257 computed tokens, and a WSP data channel joining a foreign control channel. Distinct by "
+          "(entry, action, credential kind, reference decision, outcome)"),
+    level_text=("Reference-monitor oracle: allow(user, action, path) from the table as last saved (C16 reference matcher) versus the outcome class "
+                "(granted = media bytes / 2xx / registered stream; refused = 401/403) seen by scripted clients on real sockets"),
+    level_note=("'a token cannot be computed from disclosed identifiers' is decided only for the implemented attacker strategy; stream query APIs "
+                "(GET /api/v1/streams*) for non-administrators and the unauthenticated info calls are exercised but unjudged"),
+    technique="runtime monitoring: reference authorization monitor over request histories against the real server; concrete attacker strategies",
+    assumptions=["rights and paths are generated inside C16's judged domain", "token expiry is observed through a verif accessor that ages the token, not by waiting"],
+)
+
 # checks whose texts are kept as JSON (props_json/<ID>.json)
 import json as _json, os as _os, glob as _glob
 for _f in sorted(_glob.glob(_os.path.join(_os.path.dirname(_os.path.abspath(__file__)), "props_json", "C*.json"))):
